@@ -404,6 +404,18 @@ pub fn eval_str(s: &str, depth: usize, acc: &mut Acc) {
                         acc.violation(Violation { key: format!("deferred-doc-count nt={}", $name), expected: format!("{}", eager.len()), observed: format!("{}", docs.len()), case: str_case(s), size: s.len() });
                     }
                     for (d, e) in docs.iter().zip(eager) {
+                        // the deferred mode defers: every scalar leaf is an unresolved representation
+                        fn resolved_leaf(c: &Canon) -> bool {
+                            match c {
+                                Canon::Null | Canon::Bool(_) | Canon::Int(_) | Canon::Float(_) | Canon::Str(_) => true,
+                                Canon::Seq(v) => v.iter().any(resolved_leaf),
+                                Canon::Map(p) => p.iter().any(|(k, v)| resolved_leaf(k) || resolved_leaf(v)),
+                                _ => false,
+                            }
+                        }
+                        if resolved_leaf(&$m::canon(d)) {
+                            acc.violation(Violation { key: format!("deferred-load-resolves nt={}", $name), expected: "unresolved representations after early_parse(false)".into(), observed: format!("{:?}", $m::canon(d)), case: str_case(s), size: s.len() });
+                        }
                         // whole-tree resolution equals the eager tree
                         let mut c = d.clone();
                         let _ = catch_unwind(AssertUnwindSafe(|| $m::apply(&mut c, Op::PrrRoot)));
